@@ -9,7 +9,7 @@ import ast
 import z3
 
 from .core import (BOOL, INT, STR, CLASSES, ConcreteSeq, LazyContainer, LiveView, Path, PyExc, Snapshot, SV, SymIter,
-                   StateView, TDict, TList, TObj, TOpt, TRefBase, TSet, TTuple, TUn, Ty, Unsupported,
+                   StateView, TAList, TDict, TList, TObj, TOpt, TRefBase, TSet, TTuple, TUn, Ty, Unsupported,
                    _TBool, _TInt, _TStr, class_mro, declare_exception, option_sort, EXC_PARENTS)
 from .interp import (BoundMethod, Builtin, ClassRef, ExcValue, GenObj, Interp, LoopSpec, ModuleNS,
                      PyFunc, _zb, _zand, _zor)
@@ -168,6 +168,8 @@ class Model:
                 return SV(INT, z3.Length(v.z))
             if isinstance(v.ty, TList):
                 return SV(INT, z3.Length(p.content(v)))
+            if isinstance(v.ty, TAList):
+                return SV(INT, v.ty.length(p.content(v)))
             if isinstance(v.ty, (TDict, TSet)):
                 return it.snapshot_len(self.cached_snapshot(it, LiveView(v, "keys")))
             if isinstance(v.ty, TObj):
